@@ -13,6 +13,10 @@
 //   e2e        (part_e2e.go) the same chain end to end as controlled threads under vsched: real
 //              NewSubscriber/Monitor/load/watch goroutine/reload and real Build over a simulated etcd
 //              behind the EtcdClient seam; every interleaving up to a preemption bound; worker processes
+//              (families 6-9: a co-subscriber closes during a delivery, the last subscriber leaves and the
+//              key is subscribed again, Exclusive / WithExactMatch)
+//   leave      (part_leave.go) sequential histories with Registry.Unmonitor: leave, join again, and a
+//              listener unmonitored from inside another listener's callback while an event is delivered
 //
 // State key = white-box dump of every implementation object (container values/mapping/dirty/
 // snapshot, watchValue.values, handler set, last published list) ⊕ the reference state (etcd map,
@@ -85,6 +89,16 @@ func nontrivialOp(p part, path []Op) (string, bool) {
 		return cat, cat != "reload-nochange"
 	case "kube":
 		return o.K, o.K != "tcreate" && o.K != "tmodify"
+	case "leave":
+		s := newLeaveState()
+		cat, exec := "", false
+		for _, x := range path {
+			cat, exec = s.apply(x)
+		}
+		if o.Leave != "" {
+			cat += "+unmonitor-during-delivery"
+		}
+		return cat, exec && cat != "reload-nochange"
 	}
 	return o.K, true
 }
@@ -147,6 +161,9 @@ func searchPart(r *vlib.Report, p part, deadline time.Time, vs *foundList) {
 	if !res.Exhaustive {
 		r.NotExhaustive(fmt.Sprintf("%s: %s", label, res.Cap))
 	}
+	if os.Getenv("VERIF_C13_ONLY") != "" {
+		fmt.Printf("%s: states=%d transitions=%d depth=%d/%d closed=%v exhaustive=%v failing=%d per-depth=%v\n", label, res.States, res.Transitions, res.MaxDepth, p.depth, res.Closed, res.Exhaustive, res.Failures, res.PerDepth)
+	}
 }
 
 // listedClasses: class keys of the known findings of this property, read from the findings file
@@ -174,9 +191,11 @@ func main() {
 	r := vlib.NewReport(cfg)
 
 	d, dg, bd := 6, 4, 2 // depth bounds; bd: two-event watch responses are offered in the first bd steps
+	dl := 5              // depth of the leave part
 	box := 75 * time.Second
 	if cfg.Thorough() {
 		d, dg, bd = 8, 6, 3
+		dl = 7
 		box = 17 * time.Minute
 	}
 	// worker mode: one e2e scenario per process (the registry under test is process-global)
@@ -187,6 +206,12 @@ func main() {
 		n := fmt.Sprintf("e2e%03d", i)
 		e2eShards = append(e2eShards, n)
 		e2eByShard[n] = sc
+	}
+	if os.Getenv("VERIF_C13_LIST") != "" { // developer aid: shard name -> scenario
+		for i, sc := range e2e {
+			fmt.Printf("%s %s\n", e2eShards[i], sc.Name)
+		}
+		os.Exit(0)
 	}
 	if cfg.Shard != "" {
 		vlib.RunShards(r, e2eShards, func(shard string, r *vlib.Report) { runE2EScenario(cfg, r, e2eByShard[shard]) })
@@ -200,6 +225,7 @@ func main() {
 		"container-u": {name: "container", observe: false, alphabet: containerAlphabet, depth: d, run: func(p []Op, w io.Writer) (string, *failure) { return runContainer(false, p, w) }},
 		"registry":    {name: "registry", alphabet: registryAlphabet(bd), depth: d, run: runRegistry},
 		"kube":        {name: "kube", alphabet: kubeAlphabet, depth: 8, run: runKube}, // small: closes (or nearly) well before the bound
+		"leave":       {name: "leave", alphabet: leaveAlphabet(2, 3), depth: dl, run: runLeave},
 		"glue":        {name: "glue", alphabet: glueAlphabet, depth: dg, run: runGlue, workers: 1}, // process-global registry: sequential
 	}
 
@@ -218,6 +244,8 @@ func main() {
 			_, f = runRegistry(c.Ops, os.Stdout)
 		case "kube":
 			_, f = runKube(c.Ops, os.Stdout)
+		case "leave":
+			_, f = runLeave(c.Ops, os.Stdout)
 		case "glue":
 			_, f = runGlue(c.Ops, os.Stdout)
 		case "subset":
@@ -244,13 +272,23 @@ func main() {
 			defer pprof.StopCPUProfile()
 		}
 	}
+	if only := os.Getenv("VERIF_C13_ONLY"); only != "" { // developer aid: one sequential part, summary on stdout, no evidence
+		vs := &foundList{}
+		t0 := time.Now()
+		searchPart(r, parts[only], deadline, vs)
+		for _, f := range vs.l {
+			fmt.Printf("FOUND %s: %s\n", f.class, f.desc)
+		}
+		fmt.Printf("part %s done in %.1fs, %d classes\n", only, time.Since(t0).Seconds(), len(vs.l))
+		os.Exit(0)
+	}
 	var wg sync.WaitGroup
-	order := []string{"container", "container-u", "registry", "kube", "misc", "glue"}
+	order := []string{"container", "container-u", "registry", "leave", "kube", "misc", "glue"}
 	lists := map[string]*foundList{}
 	for _, n := range order {
 		lists[n] = &foundList{}
 	}
-	for _, name := range []string{"registry", "container", "container-u", "kube"} {
+	for _, name := range []string{"registry", "leave", "container", "container-u", "kube"} {
 		p := parts[name]
 		vs := lists[name]
 		wg.Add(1)
